@@ -63,7 +63,7 @@ P = {
          'Complete enumeration on every run of all named constants (14 bitflags types via iter_names, MSR numbers, vectors, sizes, PAT, resets) against an independently typed manual table, all u16/u8 codec inputs exhaustively, and 100k generated DR7 / selector-error-code cases.',
          'The manual table itself is the trusted base (typed from the SDM/APM); a crate constant without a table row is reported as a label in the evidence.', "3/C19"),
  "C20": (True, "PBT on software MMU: constructor truth table; index-repetition formula for all 512 indices via hook",
-         'Exploration: 150k (recursive index, page) pairs over all 512 indices through hook H3 against the index-repetition formula; 20k constructor cases (recursive and near-recursive table addresses x CR3 contents x slot contents) against the documented truth table, each followed by a second construction after a root switch inside the same function, with the used index observed from software-MMU fault addresses; 8k histories on the running recursive mapper checking every touched recursive page.',
+         'Exploration: 150k (recursive index, page) pairs over all 512 indices through hook H3 against the index-repetition formula; 20k constructor cases (recursive and near-recursive table addresses x CR3 contents x slot contents) against the documented truth table, each followed by a second construction after a root switch inside the same function, with the used index observed from software-MMU fault addresses; 8k histories (incl. clean-up calls) on the running recursive mapper checking every touched recursive page.',
          'Running recursive mapper limited to indices [1,31] and [65,160]; indices >= 256 only through the pure-function hook.', "3/C20"),
 }
 
